@@ -114,6 +114,11 @@ def _cases():
     for badp in ("33", "-1", "abc", "", "8/8"):
         cases.append(("10.1.2.3", [f"10.0.0.0/{badp}"], f"cidr-malformed:{badp}"))
     cases.append(("10.1.2.3", ["10.1.2.3"], "ip-exact"))
+    # position in the list does not matter: the containing block after host names / plain addresses / domains / malformed entries
+    for before in (["intranet.example"], ["192.168.1.1"], [".corp.example"], ["10.0.0.0/33"], ["172.16.0.0/12", "intranet.example"]):
+        cases.append(("10.1.2.3", before + ["10.0.0.0/8"], "cidr-position:inside"))
+        cases.append(("11.1.2.3", before + ["10.0.0.0/8"], "cidr-position:outside"))
+        cases.append(("x.example.com", before + [".example.com"], "domain-position"))
     cases.append(("10.1.2.3", [".2.3"], "ip-vs-domain"))
     return cases
 
